@@ -157,11 +157,16 @@ def spec_item(rec, item):
     algo = pg.geno.Sweeping()
     algo.setup(spec)
     sw = []
-    for _ in range(len(ref) + 2):
+    stops = 0
+    for _ in range(len(ref) + 4):          # keeps asking after the end: an exhausted sweep must stay exhausted
       try:
         sw.append(D.dna_literal(algo.propose()))
       except StopIteration:
-        break
+        stops += 1
+    if sw == lits and stops != 4:
+      rec.viol(f'sweeping-restarts-after-end/{base}', f'{d!r}: {4 - stops} of 4 proposals after exhaustion succeeded', tr); bad = True
+    if sw == lits and algo.num_proposals != len(lits):
+      rec.viol(f'sweeping-count/{base}', f'{d!r}: num_proposals={algo.num_proposals} after sweeping {len(lits)} DNAs', tr); bad = True
     if sw != lits:
       rec.viol(f'sweeping-differs/{base}', f'{d!r}: Sweeping proposes {len(sw)} DNAs, iteration {len(lits)}', tr); bad = True
   except Exception as e:  # pylint: disable=broad-except
